@@ -8,3 +8,11 @@ pub fn get_var_name(id: usize) -> String {
 pub fn parse_number(s: &str) -> (String, usize, usize) {
     crate::parse::expr::verif::parse_number(s)
 }
+
+pub fn sub_expr_counts(v: u8, k0: u8, k1: u8, k2: u8) -> (usize, usize, usize) {
+    crate::parse::expr::verif::sub_expr_counts(v, k0, k1, k2)
+}
+
+pub fn primitive_step(s: &str, cur: usize, op: u8, arg: &str) -> (usize, u32, u32, u32, u32, bool, bool) {
+    crate::parse::verif::primitive_step(s, cur, op, arg)
+}
